@@ -86,7 +86,8 @@ def validate (start limit : Nat) (es : List (El (Hdr × List Nat))) : Option (Li
 
 /-- `setHash`: agree with the hash already held, else record it -/
 def setHash (b : Block) (h : String) : Option Block :=
-  if b.hash != "" && h != "" && b.hash != h then none else some { b with hash := h }
+  if h == "" then some b
+  else if b.hash != "" && b.hash != h then none else some { b with hash := h }
 
 def updBlock (bs : List Block) (num : Nat) (f : Block → Option Block) : Option (List Block) :=
   match bs with
